@@ -1076,7 +1076,10 @@ impl Prop for C06 {
          (rate 5-40 %) of kinds parse, unknown-module, module-unavailable, broken-module (parse/type/run-time \
          error or missing nested import inside a synthetic module, later repaired), name-clash, type-error, \
          runtime-error (call depth 0-5) and vm-fault (run-time error raised at a seeded VM instruction), placed \
-         at a seeded statement position after a successful prefix; 1 run in 8 is fault-free. A run is \
+         at a seeded statement position after a successful prefix; 1 run in 8 is fault-free; 1 in 16 builds both \
+         sessions from scratch; 1 in 16 runs with currency on-demand loading on and currency identifiers in the \
+         workload; 1 in 16 is additionally replayed in a fresh process (failing inputs evaluated by fork()ed copies); \
+         30 % of the runs carry comments, blank lines and Unicode operator spellings. A run is \
          non-trivial if at least one input actually failed AND at least one definition made by a successful \
          input survived to the end. Distinct = distinct fingerprint over (input texts, outcomes, final digest)."
             .to_string()
